@@ -67,7 +67,8 @@ def check_case(ctx: Ctx, case) -> None:
     exp = expected_notes(res, items)
     lines = [S.track_line(it) for it in items]
     rc = {"phrases": phrases, "notes": note_ticks, "lines": lines}
-    chart, tr = T.parse_track(ctx, res, TEMPO, lines, HEADER, rc, fmt=case.get("fmt", 0))
+    header = S.HEADER_LIST[(len(lines) * 7 + len(phrases) * 3 + sum(note_ticks)) % 40]
+    chart, tr = T.parse_track(ctx, res, case.get("tempo", TEMPO), lines, header, rc, fmt=case.get("fmt", 0))
     if tr is None:
         return
     got_sp = [[e.tick, e.sustain] for e in tr.star_power_events]
@@ -170,7 +171,10 @@ def _relations(draw, ctx):
             notes = [t for t in notes if t >= last_end]
         elif mode == 2:  # all notes before the first phrase
             notes = [t for t in notes if t < phrases[0][0]]
-    return {"phrases": phrases, "notes": notes, "res": draw(st.sampled_from([192, 480, 3])),
+    tempo = [[0, draw(st.sampled_from([120000, 120000, 10 ** 9, 777]))]]
+    if draw(st.integers(0, 3)) == 0:
+        tempo.append([draw(st.integers(1, max(1, last_end))), draw(st.sampled_from([60000, 10 ** 9]))])
+    return {"phrases": phrases, "notes": notes, "res": draw(st.sampled_from([192, 480, 3, 10 ** 6])), "tempo": tempo,
             "fmt": draw(st.one_of(st.just(0), st.just(0), st.integers(1, 10 ** 6)))}
 
 
